@@ -178,6 +178,54 @@ theorem x_minus_sin_over_x3_taylor (u : ℝ) (h0 : 0 ≤ u) (h : u < eps) :
   linarith
 
 
+/-- `half_x2_plus_cos_minus_one_over_x4` (squared argument; the ω^² coefficient of the strap-down position integral, C08):
+    on the Taylor cell the polynomial is within 1e-14 of the analytic value (u/2 + cos √u − 1)/u² -/
+theorem half_x2_plus_cos_minus_one_over_x4_taylor (u : ℝ) (h0 : 0 < u) (h : u < eps) :
+    |SqSeries.half_x2_plus_cos_minus_one_over_x4 u - (u / 2 + Real.cos (Real.sqrt u) - 1) / u ^ 2| ≤ 1 / 10 ^ 14 := by
+  obtain ⟨hs, hhalf, hone, hmil⟩ := small_u h0.le h
+  have hT : SqSeries.half_x2_plus_cos_minus_one_over_x4 u
+      = 6004799503160661 * 2 ^ (-57:ℤ) + -6405119470038039 * 2 ^ (-62:ℤ) * u +
+                    -1301357606610903 * 2 ^ (-72:ℤ) * (u * (u * u)) +
+                  -7100047627943069 * 2 ^ (-89:ℤ) * (u * (u * u * (u * u))) +
+                3660068268593165 * 2 ^ (-67:ℤ) * (u * u) +
+              630961263811347 * 2 ^ (-78:ℤ) * (u * u * (u * u)) := by
+    simp only [cas_series, cas_real]; rw [if_pos hs]
+  have hP : ∑ k ∈ Finset.range 6, aTerm 4 u k = 1 / 24 - u * (1 / 720) + u ^ 2 * (1 / 40320) - u ^ 3 * (1 / 3628800) + u ^ 4 * (1 / 479001600) - u ^ 5 * (1 / 87178291200) := by
+    simp [Finset.sum_range_succ, aTerm, Nat.factorial]; ring
+  have hb := truncation_bound 4 u _ h0.le hhalf (hasSum_aTerm4 u h0) 6
+  rw [hP] at hb
+  have hfac : ((Nat.factorial (2 * 6 + 4) : ℕ) : ℝ) = 20922789888000 := by norm_num [Nat.factorial]
+  rw [hfac] at hb
+  have hd : SqSeries.half_x2_plus_cos_minus_one_over_x4 u - (1 / 24 - u * (1 / 720) + u ^ 2 * (1 / 40320) - u ^ 3 * (1 / 3628800) + u ^ 4 * (1 / 479001600) - u ^ 5 * (1 / 87178291200))
+      = (6004799503160661 * 2 ^ (-57:ℤ) - (1 / 24)) + (-6405119470038039 * 2 ^ (-62:ℤ) - (-1 / 720)) * u + (3660068268593165 * 2 ^ (-67:ℤ) - (1 / 40320)) * u ^ 2 + (-1301357606610903 * 2 ^ (-72:ℤ) - (-1 / 3628800)) * u ^ 3 + (630961263811347 * 2 ^ (-78:ℤ) - (1 / 479001600)) * u ^ 4 + (-7100047627943069 * 2 ^ (-89:ℤ) - (-1 / 87178291200)) * u ^ 5 := by
+    rw [hT]; ring
+  have hpb := poly5_bound (6004799503160661 * 2 ^ (-57:ℤ) - (1 / 24)) (-6405119470038039 * 2 ^ (-62:ℤ) - (-1 / 720)) (3660068268593165 * 2 ^ (-67:ℤ) - (1 / 40320)) (-1301357606610903 * 2 ^ (-72:ℤ) - (-1 / 3628800)) (630961263811347 * 2 ^ (-78:ℤ) - (1 / 479001600)) (-7100047627943069 * 2 ^ (-89:ℤ) - (-1 / 87178291200)) u hone
+  rw [← hd] at hpb
+  have hnum : |((6004799503160661 * 2 ^ (-57:ℤ) - (1 / 24)) : ℝ)| + |((-6405119470038039 * 2 ^ (-62:ℤ) - (-1 / 720)) : ℝ)| + |((3660068268593165 * 2 ^ (-67:ℤ) - (1 / 40320)) : ℝ)| + |((-1301357606610903 * 2 ^ (-72:ℤ) - (-1 / 3628800)) : ℝ)| + |((630961263811347 * 2 ^ (-78:ℤ) - (1 / 479001600)) : ℝ)| + |((-7100047627943069 * 2 ^ (-89:ℤ) - (-1 / 87178291200)) : ℝ)|
+      ≤ 1 / 10 ^ 15 := by
+    have a0 : |((6004799503160661 * 2 ^ (-57:ℤ) - (1 / 24)) : ℝ)| ≤ 1 / 10 ^ 16 := by rw [abs_le]; constructor <;> norm_num
+    have a1 : |((-6405119470038039 * 2 ^ (-62:ℤ) - (-1 / 720)) : ℝ)| ≤ 1 / 10 ^ 16 := by rw [abs_le]; constructor <;> norm_num
+    have a2 : |((3660068268593165 * 2 ^ (-67:ℤ) - (1 / 40320)) : ℝ)| ≤ 1 / 10 ^ 16 := by rw [abs_le]; constructor <;> norm_num
+    have a3 : |((-1301357606610903 * 2 ^ (-72:ℤ) - (-1 / 3628800)) : ℝ)| ≤ 1 / 10 ^ 16 := by rw [abs_le]; constructor <;> norm_num
+    have a4 : |((630961263811347 * 2 ^ (-78:ℤ) - (1 / 479001600)) : ℝ)| ≤ 1 / 10 ^ 16 := by rw [abs_le]; constructor <;> norm_num
+    have a5 : |((-7100047627943069 * 2 ^ (-89:ℤ) - (-1 / 87178291200)) : ℝ)| ≤ 1 / 10 ^ 16 := by rw [abs_le]; constructor <;> norm_num
+    linarith
+  have h6 := u6_small h0.le hmil
+  have hb' : 2 * (u ^ 6 / 20922789888000) ≤ 1 / 10 ^ 15 := by
+    have : u ^ 6 / 20922789888000 ≤ (2 / 10 ^ 18) / 20922789888000 := div_le_div_of_nonneg_right h6 (by norm_num)
+    linarith [this, (by norm_num : (2:ℝ) * ((2 / 10 ^ 18) / 20922789888000) ≤ 1 / 10 ^ 15)]
+  have := combine _ _ _ _ _ (le_trans hpb hnum) (le_trans hb hb')
+  linarith
+
+/-- at exactly zero rotation the coefficient is the double nearest 1/24 (finite: no 0/0) -/
+theorem half_x2_plus_cos_minus_one_over_x4_zero :
+    |SqSeries.half_x2_plus_cos_minus_one_over_x4 (0:ℝ) - 1 / 24| ≤ 1 / 10 ^ 16 := by
+  have hs : |(0:ℝ)| < eps := by rw [abs_zero]; exact eps_pos
+  have hT : SqSeries.half_x2_plus_cos_minus_one_over_x4 (0:ℝ) = 6004799503160661 * 2 ^ (-57:ℤ) := by
+    simp only [cas_series, cas_real]; rw [if_pos (by simpa using hs)]; simp
+  rw [hT, abs_le]; constructor <;> norm_num
+
+
 /-- `cos_x` (squared argument): on the Taylor cell the polynomial is within 1e-14 of the analytic value -/
 theorem cos_x_taylor (u : ℝ) (h0 : 0 ≤ u) (h : u < eps) :
     |SqSeries.cos_x u - Real.cos (Real.sqrt u)| ≤ 1 / 10 ^ 14 := by
